@@ -72,6 +72,10 @@ class DateForms(Sub):
     rule = ("every date of the tier's range in each calendar/ordinal/week x basic/extended form (+ YYYY-Www, YYYY-MM): quick = 13 sample years "
             "(4750 dates), thorough = every date 1583-01-01..9999-12-31; non-trivial: first/last day of a month (ordinal/week month lookup boundaries)")
 
+    def describe(self, case):
+        d = D.date.fromordinal(case["o"])
+        return {"date": d.isoformat(), "strings": date_forms(d)}
+
     def exhaustive(self, tier):
         return True
 
@@ -150,6 +154,11 @@ class DateTimeForms(Sub):
     shards = {"quick": 3, "thorough": 8}
     rule = ("date form x time precision (h, hm, hms, hms+fraction of 1-9 digits, '.' or ',') x {T, space} x offset {none, Z, +-hh, +-hhmm, +-hh:mm}; "
             "non-trivial: ordinal/week date, or fraction length != 6, or non-zero offset")
+
+    def describe(self, case):
+        d = D.date.fromordinal(case["o"])
+        ts, tv = time_str(case)
+        return {"date": d.isoformat(), "time_string": ts, "offset_kind": case["offkind"], "date_form": case["dform"] + ("-ext" if case["ext"] else "-basic")}
 
     def strategy(self, ctx):
         return dt_form_case()
